@@ -103,6 +103,8 @@ def frame(fp, rid="_rid_"):
         a = np_array(c["kind"], c["vals"])
         if fp.get("layout") == "strided" and len(a):
             a = _strided(a)
+        elif fp.get("layout") == "bigendian" and a.dtype.kind in "iufMm" and a.dtype.itemsize > 1:
+            a = a.astype(a.dtype.newbyteorder(">"))          # the same values in non-native byte order
         cols[c["name"]] = a.view(di.DataFrameColumn)
     if rid:
         cols[rid] = np.arange(n).view(di.DataFrameColumn)
@@ -296,7 +298,7 @@ def dtype_tag(a):
         return "U"
     if a.dtype.kind == "S":
         return "S"
-    return str(a.dtype)
+    return str(a.dtype.newbyteorder("=")) if a.dtype.kind in "iufMmc" else str(a.dtype)       # byte order is not part of the type
 
 
 def kind_dtype_tag(kind):
